@@ -17,9 +17,192 @@ def plan_roundtrip(pid, rng, quick):
     # a few bigger batches (more parents per table, id deltas > 1 byte)
     for i in range(4 if quick else 40):
         plan.append(otap.rand_stream(rng, "rt-large/%s/%d" % (signal, i), signal, [pid], nb=2, size="large"))
+    # a refused batch (more resources than 16-bit ids) must not disturb the batches that follow it
+    for i in range(3 if quick else 12):
+        bs = [otap.rand_batch(rng, rich=2), {"gen": "parents", "n": rng.choice([65536, 65540]), "nres": 70000, "with": "resattr", "nodump": True},
+              otap.rand_batch(rng, rich=2), otap.rand_batch(rng, rich=1)]
+        plan.append({"id": "rt-after-refusal/%s/%d" % (signal, i), "signal": signal, "opts": {}, "batches": bs,
+                     "props": [pid], "mode": 2, "nowire": True})
     return plan
 
-PLANS = {"C01": plan_roundtrip, "C02": plan_roundtrip, "C03": plan_roundtrip}
+def ramp(signal, n, distinct, base, col, nodump=True):
+    return {"gen": "ramp", "n": n, "distinct": distinct, "base": base, "col": col, "nodump": nodump}
+
+RAMP_COLS = {"traces": ["name", "attr", "event", "tracestate"], "logs": ["body", "sevtext", "attr", "attrkey"],
+             "metrics": ["name", "attr", "unit"]}
+
+def ramp_history(rng, signal, regime, cap, nb):
+    """Cardinality ramp for one column. regime 'overflow': every batch brings new values (low reuse);
+    'reset': many batches over a tiny alphabet (high reuse), then a burst of distinct values;
+    'cross': cumulative cardinality crosses `cap` slowly."""
+    col = rng.choice(RAMP_COLS[signal])
+    out = []
+    if regime == "overflow":
+        per = max(2, (cap * 2) // nb)
+        for k in range(nb):
+            out.append(ramp(signal, per, per, k * per, col))
+    elif regime == "reset":
+        for k in range(nb - 2):
+            out.append(ramp(signal, rng.choice([200, 500]), 3, 0, col))
+        out.append(ramp(signal, cap + rng.choice([1, 45]), cap + rng.choice([1, 45]), 1000, col))
+        out.append(ramp(signal, 50, 5, 0, col, nodump=False))
+    else:
+        per = max(2, (cap + 40) // max(1, nb - 1))
+        for k in range(nb):
+            out.append(ramp(signal, per + 10, per, k * per, col))
+    return out
+
+def plan_c08(pid, rng, quick):
+    plan = []
+    n = 150 if quick else 4000
+    for i in range(n):
+        signal = rng.choice(["traces", "logs", "metrics"])
+        st = otap.rand_stream(rng, "ung/%s/%d" % (signal, i), signal, [], guarded=False,
+                              opts=otap.opts_random(rng) if rng.random() < 0.3 else None)
+        st["nowire"] = True
+        st["nodecode"] = True
+        plan.append(st)
+    # sparse first batches: list / struct columns introduced with only zeros (in-domain, default options)
+    for i in range(120 if quick else 3000):
+        signal = rng.choice(["metrics", "metrics", "traces", "logs"])
+        st = otap.rand_stream(rng, "zero-first/%s/%d" % (signal, i), signal, [], nb=rng.choice([1, 2, 3]))
+        for b in st["batches"][:1]:
+            b["rich"] = 0
+        st["nowire"] = True
+        st["nodecode"] = True
+        plan.append(st)
+    # more parents than a 16-bit id can number
+    sizes = [65535, 65536, 65537] if quick else [65534, 65535, 65536, 65537, 70000, 131073]
+    kinds = [("traces", "spanattr", 1), ("traces", "event", 1), ("traces", "link", 1), ("traces", "resattr", 0),
+             ("traces", "plain", 1), ("logs", "logattr", 1), ("logs", "resattr", 0), ("logs", "plain", 1),
+             ("metrics", "dpattr", 1), ("metrics", "resattr", 0), ("metrics", "plain", 1)]
+    for signal, with_, nres in kinds:
+        for n_ in sizes:
+            for pre in ([False] if quick else [False, True]):
+                batches = []
+                if pre:
+                    batches.append(otap.rand_batch(rng, rich=2))
+                batches.append({"gen": "parents", "n": n_, "nres": nres or n_, "with": with_, "nodump": True})
+                batches.append(otap.rand_batch(rng, rich=1))
+                plan.append({"id": "parents/%s/%s/%d/%s" % (signal, with_, n_, pre), "signal": signal, "opts": {},
+                             "batches": batches, "props": [], "mode": 2, "nowire": True, "nodecode": True})
+    # dictionary regimes (valid input under every dictionary option)
+    for i in range(24 if quick else 300):
+        signal = rng.choice(["traces", "logs", "metrics"])
+        d = rng.choice(["8", "8", "16", "", "none"])
+        cap = {"8": 255, "16": 65535, "": 65535, "none": 300}[d]
+        if cap > 1000 and quick and rng.random() < 0.7:
+            d, cap = "8", 255
+        o = {"dict": d}
+        t = rng.choice([None, 0.0, 0.3, 1.0, -1.0])
+        if t is not None:
+            o["thr"] = t
+        plan.append({"id": "dict/%s/%s/%d" % (signal, d, i), "signal": signal, "opts": o,
+                     "batches": ramp_history(rng, signal, rng.choice(["overflow", "reset", "cross"]), cap, rng.choice([4, 8, 22])),
+                     "props": [], "mode": 2, "nowire": True, "nodecode": True})
+    return plan
+
+def plan_c15(pid, rng, quick):
+    plan = []
+    for i in range(120 if quick else 3000):
+        signal = rng.choice(["traces", "logs", "metrics"])
+        st = otap.rand_stream(rng, "mem/%s/%d" % (signal, i), signal, [], guarded=rng.random() < 0.7,
+                              opts=otap.opts_random(rng) if rng.random() < 0.5 else None)
+        if rng.random() < 0.3:   # mixed signals on one producer
+            for b in st["batches"]:
+                b["signal"] = rng.choice(["traces", "logs", "metrics"])
+        for b in st["batches"]:
+            if rng.random() < 0.15 and "resend" not in b:
+                b["resend"] = 1
+        st["nowire"] = True
+        st["nodecode"] = True
+        plan.append(st)
+    # encode errors in the middle of a history (more resources than 16-bit ids), then normal batches
+    for signal in ("traces", "logs", "metrics"):
+        for n_ in ([65540] if quick else [65536, 65540, 70000]):
+            plan.append({"id": "mem-err/%s/%d" % (signal, n_), "signal": signal, "opts": {},
+                         "batches": [otap.rand_batch(rng, rich=2),
+                                     {"gen": "parents", "n": n_, "nres": n_, "with": "resattr", "nodump": True},
+                                     otap.rand_batch(rng, rich=2), otap.rand_batch(rng, rich=1)],
+                         "props": [], "mode": 2, "nowire": True, "nodecode": True})
+    # overflow / reset / rebuild paths
+    for i in range(18 if quick else 200):
+        signal = rng.choice(["traces", "logs", "metrics"])
+        d = rng.choice(["8", "8", "16"]) if not quick else "8"
+        cap = {"8": 255, "16": 65535}[d]
+        o = {"dict": d}
+        t = rng.choice([None, 0.0, 1.0, -1.0])
+        if t is not None:
+            o["thr"] = t
+        plan.append({"id": "mem-dict/%s/%s/%d" % (signal, d, i), "signal": signal, "opts": o,
+                     "batches": ramp_history(rng, signal, rng.choice(["overflow", "reset", "cross"]), cap, rng.choice([4, 8])),
+                     "props": [], "mode": 2, "nowire": True, "nodecode": True})
+    return plan
+
+def plan_wire(pid, rng, quick):
+    """C12 / C13: what an independent Arrow reader sees on the wire."""
+    plan = []
+    for i in range(110 if quick else 2500):
+        signal = rng.choice(["traces", "logs", "metrics"])
+        o = otap.opts_random(rng) if rng.random() < 0.6 else {}
+        st = otap.rand_stream(rng, "wire/%s/%d" % (signal, i), signal, [], opts=o, nb=rng.choice([2, 3, 5, 8]))
+        if rng.random() < 0.5:   # interleaved signals on one producer
+            for b in st["batches"]:
+                b["signal"] = rng.choice(["traces", "logs", "metrics"])
+        st["nodecode"] = True
+        plan.append(st)
+    dicts = ["8", "8", "16", "", "none", "32", "64"]
+    for i in range(30 if quick else 400):
+        signal = rng.choice(["traces", "logs", "metrics"])
+        d = rng.choice(dicts)
+        cap = {"8": 255, "16": 65535, "": 65535, "none": 300, "32": 70000, "64": 70000}[d]
+        if cap > 1000 and quick and rng.random() < 0.8:
+            d, cap = "8", 255
+        o = {"dict": d, "zstd": rng.choice([True, False])}
+        t = rng.choice([None, 0.0, 0.3, 1.0, -1.0])
+        if t is not None:
+            o["thr"] = t
+        plan.append({"id": "wire-dict/%s/%s/%d" % (signal, d, i), "signal": signal, "opts": o,
+                     "batches": ramp_history(rng, signal, rng.choice(["overflow", "reset", "cross"]), cap, rng.choice([4, 8, 22])),
+                     "props": [], "mode": 2, "nodecode": True})
+    return plan
+
+def plan_c04(pid, rng, quick):
+    """Options never change content: option product x schema-evolution histories, default consumer."""
+    plan = []
+    product = [(d, t, z, os_, a16, a32) for d in otap.DICTS for t in (None, 0.0, 1.0, -1.0) for z in (True, False)
+               for os_ in otap.ORDER_SPAN for a16 in otap.ATTRS16 for a32 in otap.ATTRS32]
+    rng.shuffle(product)
+    pick = product[:170] if quick else product
+    for i, (d, t, z, os_, a16, a32) in enumerate(pick):
+        o = {"dict": d, "zstd": z, "hasOrder": True, "orderSpan": os_, "attrs16": a16, "attrs32": a32}
+        if t is not None:
+            o["thr"] = t
+        signal = ["traces", "logs", "metrics"][i % 3] if not quick else rng.choice(["traces", "traces", "logs", "metrics"])
+        st = otap.rand_stream(rng, "opt/%s/%d" % (signal, i), signal, ["C04"], opts=o, nb=rng.choice([2, 3, 4]))
+        plan.append(st)
+    # index-width state machine under the dictionary sub-lattice: ramps crossing 255 / 65535 / the limit
+    dl = [("8", 255), ("16", 65535), ("", 65535), ("32", 65535), ("64", 65535), ("none", 300)]
+    for i in range(20 if quick else 240):
+        signal = rng.choice(["traces", "logs", "metrics"])
+        d, cap = rng.choice(dl)
+        if cap > 1000 and quick and rng.random() < 0.75:
+            d, cap = "8", 255
+        o = {"dict": d}
+        t = rng.choice([None, 0.0, 0.3, 1.0, -1.0])
+        if t is not None:
+            o["thr"] = t
+        bs = ramp_history(rng, signal, rng.choice(["overflow", "reset", "cross"]), cap, rng.choice([4, 8]))
+        for b in bs:
+            if b["n"] <= 600:
+                b["nodump"] = False
+        bs.append(otap.rand_batch(rng, rich=2))
+        plan.append({"id": "opt-ramp/%s/%s/%d" % (signal, d, i), "signal": signal, "opts": o, "batches": bs,
+                     "props": ["C04"], "mode": 0, "nowire": True})
+    return plan
+
+PLANS = {"C01": plan_roundtrip, "C02": plan_roundtrip, "C03": plan_roundtrip, "C08": plan_c08, "C15": plan_c15,
+         "C12": plan_wire, "C13": plan_wire, "C04": plan_c04}
 
 def fixed_plans(pid):
     out = []
